@@ -56,7 +56,7 @@ def plan(tier, seed):
     descs = []
     nsingle = 64
     for p in range(nsingle):
-        descs.append({"kind": "single", "part": p, "nparts": nsingle})
+        descs.append({"kind": "single", "seed": seed, "part": p, "nparts": nsingle})
     ncore = 200 if quick else 800
     step = 5
     for lo in range(0, ncore, step):
@@ -350,6 +350,11 @@ def run_single(v, desc, keys):
         opts = check_single(v, spec, keys)
         if i == 0 and desc["part"] % 16 == 0:
             sample = {"kind": "single", "spec": spec, "to_slurm_options": opts, "grid_size": len(grid)}
+    # ... and random specifications (extra arguments of every generated spelling, incl. names of built-in flags)
+    rng = random.Random(f"c20-single-{desc.get('seed', 0)}-{desc['part']}")
+    for _ in range(40):
+        check_single(v, M.gen_spec(rng), keys)
+        v.count("random_single_specs")
     v.classes.add("single")
     return sample
 
@@ -495,6 +500,16 @@ def run_update(v, desc, keys):
                     v.count("diag_update_result_differs_from_docstring_model")
                 if rv["extra_args"] and res.extra_args is r.extra_args:
                     v.count("diag_update_result_shares_extra_args_dict")
+                # whatever the result holds (unknown keywords have become extra arguments - also ones spelled like a
+                # built-in flag): its options mention every quantity that IS set on it
+                try:
+                    o2 = res.to_slurm_options()
+                    v.count("slurm_checks_on_update_results")
+                    for q in M.slurm_missing({k: rv[k] for k in M.FIELDS if k in rv and rv[k] is not None}, o2):
+                        v.bad(f"to_slurm_options:missing/{q.split('[')[0]}/after-update", f"to_slurm_options() of the result of update = {o2!r} does not mention {q}",
+                              spec=spec, kwargs=kw, result=rv)
+                except Exception as e:  # noqa: BLE001
+                    v.bad(exc_sig(e, "exc") + "/to_slurm_options/after-update", f"to_slurm_options raised: {exc_msg(e)}", spec=spec, kwargs=kw)
         keys.append("u:" + M.key_of([spec, kw]))
         if n == 0 and desc["batch"] % 16 == 0:
             sample = {"kind": "update", "spec": spec, "kwargs": kw, "receiver_after": M.view(r),
